@@ -223,3 +223,66 @@ class sanctioned(ContractBase):
     def ensures(c):
         return {'fail-closed': Implies(c.old.g('ghost.hook_raises'), Not(c.result)),
                 'hook-decides': Implies(Not(c.old.g('ghost.hook_raises')), c.result == c.old.g('ghost.hook_answer'))}
+
+
+# ------------------------------------------------------------------------------------------------ DynamicContent.__render
+import dawgie.fe.basis as _basis
+DC = Ref('DynamicContent')
+HTTPM = W.enum(_basis.HttpMethod)
+W.class_path['DynamicContent'] = 'dawgie.fe.basis.DynamicContent'
+DP = '_DynamicContent__'
+W.declare_fields('DynamicContent', **{DP + 'fnc': ATOM, DP + 'methods': Bag(HTTPM), DP + 'uri': ATOM})
+W.declare_global('ghost.handler_calls', INT)              # how many times the endpoint's handler ran
+W.declare_global('ghost.sanction_asked', INT)             # how many times dawgie.security.sanctioned was consulted
+W.declare_global('ghost.sanction_said', BOOL)             # ... and what it answered last
+sanction_of = z3.Function('sanctioned_answer', ATOM.sort(), Opt(CERT).sort(), z3.BoolSort())
+peer_cert = z3.Const('peer_certificate', Opt(CERT).sort())
+has_cert_api = z3.Const('transport_has_getPeerCertificate', z3.BoolSort())
+
+
+def _sanctioned_fn(ex, args, kwargs, e):
+    st = ex.st
+    ans = sanction_of(ex.to_z3(args[0], ATOM), ex.to_z3(args[1], Opt(CERT)))
+    for g, v in (('ghost.sanction_asked', st.glob['ghost.sanction_asked'] + 1), ('ghost.sanction_said', ans)):
+        ex._note_write(g, e.lineno)
+        st.glob[g] = v
+    return V(ans, BOOL)
+
+
+def _handler_call(ex, e):
+    ex._note_write('ghost.handler_calls', e.lineno)
+    ex.st.glob['ghost.handler_calls'] = ex.st.glob['ghost.handler_calls'] + 1
+    return V(ex.fresh('handler_response', ATOM), ATOM)
+
+
+@contract(W, 'dawgie/fe/basis.py', 'DynamicContent.__render', props=['C19'])
+class render_(ContractBase):
+    """the access decision comes first, for every HTTP method: the handler of an endpoint runs at most once and only after
+    security.sanctioned() was asked about this very endpoint and this caller's certificate and said yes"""
+    params = {'self': DC, 'request': ATOM, 'method': HTTPM}
+    returns = ATOM
+    modifies = ['ghost.handler_calls', 'ghost.sanction_asked', 'ghost.sanction_said']
+    opaque_fstrings = True
+    externs = {'dawgie.security.sanctioned': Extern(fn=_sanctioned_fn), 'dawgie.security.identity': Extern(ret=ATOM),
+               'dawgie.fe.basis.build_return_object': Extern(ret=ATOM)}
+    abstract = {"inspect.signature(self.__fnc)": lambda ex, e: None,
+                "'getPeerCertificate' in dir(request.transport)": lambda ex, e: V(has_cert_api, BOOL),
+                "request.transport.getPeerCertificate()": lambda ex, e: V(peer_cert, Opt(CERT)),
+                "request.args.keys()": lambda ex, e: [],           # the query arguments only feed the handler's keywords
+                "isinstance(self.__fnc, DeferContainer)": lambda ex, e: False,
+                "response.update(*": lambda ex, e: None,
+                "json.dumps(response).encode()": ATOM,
+                "self.__fnc(**kwds)": _handler_call,
+                "self.__err(method)": ATOM}
+
+    def requires(c):
+        return {'fresh-ghost': And(c.old.g('ghost.handler_calls') == 0, c.old.g('ghost.sanction_asked') == 0)}
+
+    def ensures(c):
+        s = c['self']
+        cert = If(has_cert_api, peer_cert, Opt(CERT).none())
+        ok = sanction_of(c.old.f('DynamicContent.' + DP + 'uri', s), cert)
+        mapped = c.old.f('DynamicContent.' + DP + 'methods', s)[c['method']]
+        calls = c.cur.g('ghost.handler_calls')
+        return {'decision-first-for-every-method': And(c.cur.g('ghost.sanction_asked') == 1, c.cur.g('ghost.sanction_said') == ok),
+                'handler-only-when-sanctioned': calls == If(And(ok, mapped), 1, 0)}
